@@ -3,7 +3,7 @@
 cd "$(dirname "$0")/.."
 for d in seeded/*/ whitebox/mlw/ whitebox/fmt/ whitebox/queue/ whitebox/sock/ whitebox/holder/ whitebox/macros/ whitebox/pass2/*/; do
   case "$d" in
-    seeded/*) id=$(basename "$d"); prop=${id%%-*}; python3 orchestrate/try_patch.py "$d/patch.diff" "$prop" 2>&1 | grep -E "^C[0-9]+ " | sed "s|^|$id |" | cut -c1-260;;
+    seeded/*) id=$(basename "$d"); prop=${id%%-*}; if [ -n "$REGRESS_FROM" ] && [ "$(printf '%s\n%s\n' "$REGRESS_FROM" "$prop" | sort | head -1)" != "$REGRESS_FROM" ]; then continue; fi; python3 orchestrate/try_patch.py "$d/patch.diff" "$prop" 2>&1 | grep -E "^C[0-9]+ " | sed "s|^|$id |" | cut -c1-260;;
     whitebox/*) e=$(basename "$d"); case $e in mlw) props="C05 C06 C07 C19";; fmt) props="C01 C02 C03 C04";; queue) props="C08 C09 C10 C11";; sock) props="C12 C13 C14";; holder) props="C18";; macros) props="C17";; esac
        for n in 1 2 3 4; do python3 orchestrate/try_patch.py "$d/$n.diff" $props 2>&1 | grep -E "^C[0-9]+ " | sed "s|^|wb-$e-$n |" | cut -c1-260; done;;
   esac
